@@ -15,7 +15,7 @@ ID = "C06"
 RULE = ("type forests (every forest with <= N types and depth <= 4 exhaustively; random forests up to 8 types) each "
         "written under permutations and regroupings of its declaration lines: children of one parent merged or "
         "split, roots as trailing bare names / as 'r - object' / only mentioned as parents, children before "
-        "parents; for every forest: is_sub_type on all pairs, constants, unary and binary (also repeated-object) problem "
+        "parents; for every forest: is_sub_type on all pairs (also on copied types and on Domain.shallow_copy()), constants, unary and binary (also repeated-object) problem "
         "facts, fluents, single and paired forall effects over every type.  Non-trivial = some child is declared before its parent's own declaration, or depth >= 3.  "
         "Distinct by the declaration text.")
 ASSUMPTIONS = ["type names are distinct from 'object'; a bare-name group can only be the last group of :types"]
@@ -109,6 +109,20 @@ def check_case(case):
             wrong.append([a, b, T.is_sub(a, b), repr(got)])
     if wrong:
         res.bad("C06/is_sub_type", {**info, "wrong(a,b,expected,got)": wrong[:6]})
+    # the relation survives the public copies: a copied type, and the type table of Domain.shallow_copy()
+    okc, cp = lib_call(domain.shallow_copy)
+    if not okc:
+        res.bad(f"C06/shallow-copy/exception:{cp.key}", {**info, "error": repr(cp)})
+    else:
+        wrong = []
+        for a, b in itertools.product(sorted(keys), repeat=2):
+            for tag, ta, tb in (("copied-domain", cp.types.get(a), cp.types.get(b)),
+                                ("copied-type", domain.types[a].copy(), domain.types[b])):
+                ok2, got = lib_call(lambda: ta.is_sub_type(tb))
+                if not ok2 or got != T.is_sub(a, b):
+                    wrong.append([tag, a, b, T.is_sub(a, b), repr(got)])
+        if wrong:
+            res.bad("C06/is_sub_type-after-copy", {**info, "wrong(where,a,b,expected,got)": wrong[:6]})
     # the objects hanging off the table must agree too (constants, signatures keep references)
     for n in names:
         t = domain.constants[f"c-{n}"].type
